@@ -5,6 +5,7 @@
 mod enc;
 mod ops_chars;
 mod ops_dom;
+mod ops_domhist;
 mod ops_names;
 mod ops_xml;
 mod ops_xpath;
@@ -24,6 +25,7 @@ fn dispatch(op: &str, args: &[String]) -> String {
         "print" => ops_xml::print(args),
         "attrs" => ops_xml::attrs(args),
         "chardata" => ops_dom::chardata(args),
+        "dom" => ops_domhist::dom(args),
         "nameok" => ops_names::nameok(args),
         "query" => ops_xpath::query(args),
         "qfresh" => ops_xpath::qfresh(args),
